@@ -33,6 +33,8 @@ void vh_distinct(const char *set, const char *fmt, ...) __attribute__((format(pr
 void vh_sample(const char *prop, const char *fmt, ...) __attribute__((format(printf, 2, 3)));
 void vh_note(const char *fmt, ...) __attribute__((format(printf, 1, 2)));
 void vh_finish(void);
+void vh_flush_counts(void);   /* emit counters/distinct sets now and reset them (no "done" line) */
+void vh_reset_counts(void);
 void vh_set_context(const char *fmt, ...) __attribute__((format(printf, 1, 2))); /* added to violations */
 /* set a fixed-size slot in shared memory the parent can read after a crash */
 void vh_fatal(const char *fmt, ...) __attribute__((format(printf, 1, 2), noreturn)); /* harness failure: exit 2 */
